@@ -199,9 +199,8 @@ PROPS = {
         exhaustive_quick=True, exhaustive_thorough=True,
         trusted=["hand model of helpers.rs tied by exact-string correspondence on all 40 sizes"]),
     "C12": dict(
-        module="FastQr.Props.C12", level="proof", partial=True,
+        module="FastQr.Props.C12", more_modules=["FastQr.Props.C12Doc"], level="proof",
         key=lambda t: ("svg", t[4], tuple(sorted(set(x.split(":")[0] + (":" + x.split(":")[1] if x.startswith(("s:", "sc:", "is:")) else "") for x in t[6].split(";")))), hash(t[6]) % 7) if len(t) > 7 else None,
-        missing=["the XML tokenizer part of the document-level reading Spec.SvgParse.check (toStr b q) = none (tags, attribute order) is evaluated per rendering, not proved symbolically; the path data (C12_subpaths), escaping and layers are proved"],
         rule="cases: real SvgBuilder::to_str on real symbols (versions 1..8 mostly, every 10th any version) under generated setter "
              "histories: margin 0..n, 0..3 shape()/shape_color() calls over the 6 shapes, colours as 3/4-byte arrays (alpha "
              "255/254/128/0) and strings, image strings incl. every XML-special character, quotes, entities, non-ASCII, empty. "
